@@ -27,7 +27,7 @@
    variable visited last: Spec.VineSampleR.sample_three_columns); multi-row uni_matrix in
    get_likelihood (the model is for a one-row matrix, the only case the property quantifies over). *)
 From Coq Require Import List Arith ZArith QArith Lia Bool Permutation Reals Lra Lqa.
-From Cop Require Import Lib.FinGraph Model.Vine Model.VineData
+From Cop Require Import Lib.NumpyR Lib.FinGraph Model.Vine Model.VineData
      Spec.VineDefs Spec.VineSets Spec.VineSort Spec.VineCenter Spec.VineDirect Spec.VineRegular Spec.VinePairs Spec.VineValid
      Spec.VineDataProv Spec.VineDataChain Spec.VineDataFlags Spec.VineDataProofs
      Spec.VineLikProofs Spec.VineLikArgs Spec.VineDfs Spec.VineSampleProofs
@@ -468,9 +468,9 @@ Ltac q_cases :=
 
 (* bridges: the lines generated from prepare_next_tree ARE clip_h at the library's EPSILON, for both rows of edge.U *)
 Lemma C17_bridge_clip_U0 : forall x : Q, (vc_clip_U0_q x == clip_h EPSILON_Q x)%Q.
-Proof. intros x. unfold vc_clip_U0_q, clip_h, vc_EPSILON_q, EPSILON_Q. q_cases; try reflexivity; lra. Qed.
+Proof. intros x. unfold vc_clip_U0_q, clip_h, vc_EPSILON_q, EPSILON_Q. q_cases; try reflexivity; Lqa.lra. Qed.
 Lemma C17_bridge_clip_U1 : forall x : Q, (vc_clip_U1_q x == clip_h EPSILON_Q x)%Q.
-Proof. intros x. unfold vc_clip_U1_q, clip_h, vc_EPSILON_q, EPSILON_Q. q_cases; try reflexivity; lra. Qed.
+Proof. intros x. unfold vc_clip_U1_q, clip_h, vc_EPSILON_q, EPSILON_Q. q_cases; try reflexivity; Lqa.lra. Qed.
 
 (* hence: given h in [0,1], every stored entry of edge.U is strictly inside (0,1) *)
 Theorem C17_stored_U_strictly_inside :
@@ -480,28 +480,39 @@ Proof.
   split; apply clipping_EPSILON; exact H.
 Qed.
 
+Ltac has_mm t := match t with context [Rmin _ _] => idtac | context [Rmax _ _] => idtac end.
+Ltac r_minmax :=   (* innermost first, so that no hypothesis ever mentions Rmin / Rmax *)
+  repeat match goal with
+         | |- context [Rmin ?a ?b] =>
+             tryif has_mm a then fail else tryif has_mm b then fail else
+             (destruct (Rle_dec a b); [rewrite (Rmin_left a b) by assumption | rewrite (Rmin_right a b) by Lra.lra])
+         | |- context [Rmax ?a ?b] =>
+             tryif has_mm a then fail else tryif has_mm b then fail else
+             (destruct (Rle_dec a b); [rewrite (Rmax_right a b) by assumption | rewrite (Rmax_left a b) by Lra.lra])
+         end.
+
 (* the sampler's clip generated from _sample_row is clip_s = min(max(., 2^-23), 99/100) *)
 Lemma C17_bridge_sample_clip : forall x : R, vc_sample_clip x = clip_s x.
 Proof.
-  intros x. unfold vc_sample_clip, clip_s, vc_EPSILON, Spec.VineSampleR.EPSILON, Rmin, Rmax.
-  repeat match goal with |- context [Rle_dec ?a ?b] => destruct (Rle_dec a b) end; lra.
+  intros x. unfold vc_sample_clip, clip_s, vc_EPSILON, Spec.VineSampleR.EPSILON, np_minimum, np_maximum, np_clip.
+  r_minmax; Lra.lra.
 Qed.
 
 (* the executable (rational) printing of the same line agrees with the real one *)
 Lemma C17_bridge_sample_clip_q : forall x : Q, Q2R (vc_sample_clip_q x) = vc_sample_clip (Q2R x).
 Proof.
-  intros x. unfold vc_sample_clip_q, vc_sample_clip, vc_qmin, vc_qmax, vc_EPSILON_q, vc_EPSILON, Rmin, Rmax.
+  intros x. unfold vc_sample_clip_q, vc_sample_clip, vc_qmin, vc_qmax, vc_EPSILON_q, vc_EPSILON, np_minimum, np_maximum, np_clip.
   repeat match goal with
          | |- context [Qle_bool ?a ?b] =>
              let E := fresh "E" in
              destruct (Qle_bool a b) eqn:E;
              [apply Qle_bool_iff in E; apply Qle_Rle in E
-             | assert (~ (a <= b)%Q) by (intro HH; apply Qle_bool_iff in HH; congruence);
-               apply Qnot_le_lt in H; apply Qlt_Rlt in H; clear E]
+             | assert (~ (a <= b)%Q) as E' by (intro HH; apply Qle_bool_iff in HH; congruence);
+               apply Qnot_le_lt in E'; apply Qlt_Rlt in E'; clear E]
          end;
-  repeat match goal with |- context [Rle_dec ?a ?b] => destruct (Rle_dec a b) end;
-  repeat match goal with H : context [Q2R (_ # _)] |- _ => unfold Q2R in H; simpl in H end;
-  unfold Q2R; simpl; try lra.
+  repeat match goal with H : context [Q2R (?n # ?m)] |- _ => change (Q2R (n # m)) with (IZR n * / IZR (Zpos m))%R in H end;
+  repeat match goal with |- context [Q2R (?n # ?m)] => change (Q2R (n # m)) with (IZR n * / IZR (Zpos m))%R end;
+  r_minmax; Lra.lra.
 Qed.
 
 Theorem C17_sample_clip_range : forall x : R, (/ 8388608 <= vc_sample_clip x <= 99 / 100)%R.
